@@ -1,6 +1,6 @@
 (* C15 - Subset load balancing honours metadata and its fallback policy.  Only statements; proofs by `exact`. *)
 From Coq Require Import List Arith Bool.
-From MV Require Import Model.Subset Proofs.Subset Proofs.SubsetKeys.
+From MV Require Import Gen.SubsetTokens Model.Subset Proofs.Subset Proofs.SubsetKeys Proofs.SubsetIx.
 Import ListNotations.
 
 (* make1 = NewSubsetLoadBalancer (filtering builder), make2 = NewSubsetLoadBalancerPreIndex (pre-indexed builder).
@@ -82,6 +82,35 @@ Theorem c15_no_criteria : forall inner hs sels pol dflt,
   (forall h, inner hs = Some h -> choose_host inner (make1 hs sels pol dflt) None = Some h).
 Proof. exact no_criteria1. Qed.
 Print Assumptions c15_no_criteria.
+
+(* The pre-indexed builder with filterHosts in the SHAPE READ FROM THE SOURCE (`fh_mode`, Gen/SubsetTokens.v): make2x.
+   The statements type-check only while filterHosts intersects the index sets of ALL pairs (a pair no host carries =>
+   no host); the "skip unknown pairs" rewrite is refuted below (default subset with one absent value). *)
+Theorem c15_filterhosts_translator_ok : SubsetTokens_translator_ok = true.
+Proof. exact (eq_refl true). Qed.
+
+Theorem c15_builders_equiv_src : forall hs sels pol dflt, NoDup (map sid hs) -> forall crit,
+  host_num (make1 hs sels pol dflt) crit = host_num (make2x fh_mode hs sels pol dflt) crit /\
+  is_exists (make1 hs sels pol dflt) crit = is_exists (make2x fh_mode hs sels pol dflt) crit /\
+  (forall inner, choose_host inner (make1 hs sels pol dflt) crit = choose_host inner (make2x fh_mode hs sels pol dflt) crit) /\
+  choose_set (make1 hs sels pol dflt) crit = choose_set (make2x fh_mode hs sels pol dflt) crit.
+Proof. exact (builders_equiv_x fh_mode (eq_refl FHAllPairs)). Qed.
+Print Assumptions c15_builders_equiv_src.
+
+Theorem c15_fallback_exact_preindex_src : forall inner hs sels pol dflt crit,
+  (match first_try (make2x fh_mode hs sels pol dflt) crit with Some l => inner l | None => None end) = None ->
+  choose_host inner (make2x fh_mode hs sels pol dflt) crit =
+    match pol with
+    | NoFallBack => None
+    | AnyEndPoint => inner hs
+    | DefaultSubset => inner (filter (host_matches dflt) hs)
+    end.
+Proof. exact (fallback_exact2x fh_mode (eq_refl FHAllPairs)). Qed.
+Print Assumptions c15_fallback_exact_preindex_src.
+
+Theorem c15_filterhosts_skip_unknown_refuted : ~ fh_equiv_statement FHSkipUnknown.
+Proof. exact skip_unknown_refuted. Qed.
+Print Assumptions c15_filterhosts_skip_unknown_refuted.
 
 (* Selector normalisation (types.InitSet + GenerateSubsetKeys) is part of the model: the input is the list of selectors
    AS CONFIGURED (any order, repeated keys, duplicates, prefixes of one another).  Every configured selector's key set
